@@ -419,7 +419,7 @@ func runC11(c *Ctx) {
 	}
 
 	// ---------------------------------------------------------------- R7
-	c.rule("R7", "shard methods run on the map's own shards (addressed in place, never on a copy), and Store reaches Set on every path except 'already expired'", 9)
+	c.rule("R7", "shard methods run on the map's own shards (addressed in place, never on a copy), and Store reaches Set on every path except 'already expired', with an element of its own", 10)
 	for _, f := range p.funcsIn(relCMap) {
 		fn := f
 		eachInstr(f, func(in ssa.Instruction) {
@@ -523,6 +523,18 @@ func runC11(c *Ctx) {
 						work = append(work, sb)
 					}
 				}
+			}
+			// what is set is an element made by this Store call: a recycled one (pool, free list) may still be reachable
+			// through the table, or be handed out twice — Get(k1) then returns what was stored under k2 (round 12)
+			{
+				fresh := false
+				if len(ci.Call.Args) == 3 {
+					if al, ok := ci.Call.Args[2].(*ssa.Alloc); ok && al.Heap && al.Parent() == stF {
+						fresh = true
+					}
+				}
+				c.check(fresh, "stored-element-is-fresh@Store", instrPos(in), "the stored element is allocated by this Store call",
+					"Store puts an element into the table that it did not allocate itself ("+exprStr(ci.Call.Args[len(ci.Call.Args)-1])+"): an element recycled while readers still hold it, or handed out twice, makes Get return a value stored under another key")
 			}
 			c.check(extra == "", "store-always-sets", instrPos(in), "Store sets the entry unless it is already expired", "Store sets the entry only under "+extra+": a value stored later is silently dropped and Get keeps returning the overwritten one")
 		})
